@@ -2,6 +2,7 @@ package c16
 
 import (
 	"context"
+	"errors"
 	"sync"
 	"testing"
 
@@ -36,10 +37,12 @@ type EventsCase struct {
 }
 
 type scriptedBlocks struct {
-	mu        sync.Mutex
-	next      *SignedBlockSpec
-	delivered int
-	odd       int
+	mu         sync.Mutex
+	next       *SignedBlockSpec
+	delivered  int
+	odd        int
+	unhashable int
+	hashing    bool // the consumer hashes the block with the client library's accessors
 }
 
 func (s *scriptedBlocks) SignedBeaconBlock(context.Context, *api.SignedBeaconBlockOpts) (*api.Response[*spec.VersionedSignedBeaconBlock], error) {
@@ -49,6 +52,15 @@ func (s *scriptedBlocks) SignedBeaconBlock(context.Context, *api.SignedBeaconBlo
 	b, err := buildSignedBlock(sp)
 	if err != nil {
 		return nil, err
+	}
+	if s.hashing && !libraryCanHash(b) {
+		// This consumer only uses the client library's accessors on the block; a block the library
+		// decoded but cannot hash crashes inside the library.  Not delivered; counted.
+		libraryPanics.Add(1)
+		s.mu.Lock()
+		s.unhashable++
+		s.mu.Unlock()
+		return nil, errors.New("client library cannot hash the block it decoded")
 	}
 	s.mu.Lock()
 	s.delivered++
@@ -105,11 +117,12 @@ func runEvents(c *EventsCase, out *outcome) {
 		}
 		return
 	}
+	bestBlocks := &scriptedBlocks{next: &c.Initial, hashing: true}
 	best, err := bestproposal.New(ctx,
 		bestproposal.WithLogLevel(zerolog.Disabled), bestproposal.WithTimeout(bestTimeout), bestproposal.WithClientMonitor(nullMonitor),
 		bestproposal.WithProcessConcurrency(2), bestproposal.WithEventsProvider(evp), bestproposal.WithChainTimeService(clock),
 		bestproposal.WithSpecProvider(specProvider{slotsPerEpoch: 32}), bestproposal.WithProposalProviders(map[string]eth2client.ProposalProvider{"n": &nodeDouble{spec: &NodeSpec{}}}),
-		bestproposal.WithSignedBeaconBlockProvider(blocks), bestproposal.WithBlockRootToSlotCache(nullRootToSlot{}))
+		bestproposal.WithSignedBeaconBlockProvider(bestBlocks), bestproposal.WithBlockRootToSlotCache(nullRootToSlot{}))
 	if err != nil {
 		out.harness = "cannot construct best proposal strategy: " + err.Error()
 		return
@@ -124,6 +137,9 @@ func runEvents(c *EventsCase, out *outcome) {
 		blocks.mu.Lock()
 		blocks.next = &e.Block
 		blocks.mu.Unlock()
+		bestBlocks.mu.Lock()
+		bestBlocks.next = &e.Block
+		bestBlocks.mu.Unlock()
 		var event *apiv1.Event
 		switch e.Topic {
 		case "head":
@@ -141,6 +157,12 @@ func runEvents(c *EventsCase, out *outcome) {
 	out.nontrivial = blocks.delivered > 0
 	if blocks.odd > 0 {
 		out.label("events:unusual-block-delivered")
+	}
+	if bestBlocks.delivered > 0 {
+		out.label("events:block-delivered-to-best-strategy")
+	}
+	if bestBlocks.unhashable > 0 {
+		out.label("events:block-unhashable-by-client-library")
 	}
 }
 
